@@ -44,3 +44,15 @@ func registerCtor(name, body string) {
 		knownCtor[name] = body
 	}
 }
+
+// strOf is string(b) for a byte slice b in state st: a function of the bytes of b's backing
+// object, its offset and its length (same bytes at the same place give the same string; equal
+// content elsewhere is not identified: incomplete, not unsound).
+func (vc *VC) strOf(st *State, b Term) Term {
+	if !vc.heapDecl["fn:str_of"] {
+		vc.heapDecl["fn:str_of"] = true
+		vc.cmd("(declare-fun str_of (" + ArraySort(SInt, SInt) + " Int Int) Str)")
+	}
+	inner := Select(vc.heap(st, vc.byteKind()), SObj(b))
+	return Term{app("str_of", inner, SOff(b), SLen(b)), SStr}
+}
